@@ -35,11 +35,30 @@ struct Answers {
   bool homogenised_r = false, homogenised_H = false;
 };
 
-// weights: P = blockdiag(W_k/det_k); y = P v
+// weights: P = blockdiag(W_k/det_k); y = P v. A block with det = 0 carries no adjugate (wide band
+// blocks): inv(C) v is then obtained with a dense Cholesky factor of the exact C (checked: L L' = C)
+static void chol_solve(const Block& bl, const double* v, double* y) {
+  const int d = bl.dim;
+  std::vector<double> L(d * d, 0.0), t(d);
+  for (int i = 0; i < d; i++)
+    for (int j = 0; j <= i; j++) {
+      double s = bl.C[i * d + j];
+      for (int k = 0; k < j; k++) s -= L[i * d + k] * L[j * d + k];
+      L[i * d + j] = (i == j) ? std::sqrt(s) : s / L[j * d + j];
+    }
+  for (int i = 0; i < d; i++) for (int j = 0; j <= i; j++) {
+    double s = 0; for (int k = 0; k <= j; k++) s += L[i * d + k] * L[j * d + k];
+    if (std::fabs(s - bl.C[i * d + j]) > 1e-9) Tok::fail("harness Cholesky does not reproduce C");
+  }
+  for (int i = 0; i < d; i++) { double s = v[i]; for (int k = 0; k < i; k++) s -= L[i * d + k] * t[k]; t[i] = s / L[i * d + i]; }
+  for (int i = d - 1; i >= 0; i--) { double s = t[i]; for (int k = i + 1; k < d; k++) s -= L[k * d + i] * y[k]; y[i] = s / L[i * d + i]; }
+}
 static std::vector<double> applyP(const Problem& p, const std::vector<double>& v) {
   std::vector<double> y(p.m, 0.0);
   int o = 0;
   for (const Block& bl : p.blocks) {
+    if (bl.det == 0) chol_solve(bl, &v[o], &y[o]);
+    else
     for (int i = 0; i < bl.dim; i++) {
       double s = 0;
       for (int j = 0; j < bl.dim; j++) s += bl.W[i * bl.dim + j] * v[o + j];
